@@ -8,6 +8,7 @@ import (
 	"os"
 	"os/exec"
 	"path/filepath"
+	"runtime"
 	"runtime/debug"
 	"sort"
 	"strings"
@@ -31,11 +32,12 @@ type Frame struct {
 	// entry values of parameters (for old(p))
 	entryParams map[string]Value
 	depth       int
-	ret         func(*State, Value) // continuation of an inlined frame
+	ret         func(*State, Value)             // continuation of an inlined frame
+	subst       map[*types.TypeParam]types.Type // inlined generic body: its type parameters -> the type arguments of the call
 }
 
 func (f *Frame) clone() *Frame {
-	nf := &Frame{fn: f.fn, info: f.info, entryParams: f.entryParams, depth: f.depth, ret: f.ret}
+	nf := &Frame{fn: f.fn, info: f.info, entryParams: f.entryParams, depth: f.depth, ret: f.ret, subst: f.subst}
 	nf.regs = make(map[ssa.Value]Value, len(f.regs))
 	for k, v := range f.regs {
 		nf.regs[k] = v
@@ -56,32 +58,34 @@ type iterState struct {
 }
 
 type State struct {
-	e       *Engine
-	frames  []*Frame
-	mem     map[Kind]*Term
-	maps    map[string]*Term // map-model arrays, keyed by array name
-	next    *Term            // bump allocator: every live block id is < next
-	pc      []*Term
-	clos    map[string]*closureVal
-	held    map[string]*heldLock
-	ghostOK bool
-	entry   *State // snapshot at function entry (for old())
-	acq     *State // snapshot right after the most recent lock acquisition (for acq())
-	lastRel map[string]*State // per lock: snapshot at its last release
-	watch   map[string]func(*State) []*Term // per held lock: blocks its owner's invariants read (for frame lemmas)
-	loopBase *State           // state at the head of the enclosing loop that acquires locks (baseline for rely)
+	e               *Engine
+	frames          []*Frame
+	mem             map[Kind]*Term
+	maps            map[string]*Term // map-model arrays, keyed by array name
+	next            *Term            // bump allocator: every live block id is < next
+	pc              []*Term
+	clos            map[string]*closureVal
+	held            map[string]*heldLock
+	ghostOK         bool
+	entry           *State                          // snapshot at function entry (for old())
+	acq             *State                          // snapshot right after the most recent lock acquisition (for acq())
+	lastRel         map[string]*State               // per lock: snapshot at its last release
+	watch           map[string]func(*State) []*Term // per held lock: blocks its owner's invariants read (for frame lemmas)
+	loopBase        *State                          // state at the head of the enclosing loop that acquires locks (baseline for rely)
 	loopBasePending bool
 	pendingHavoc    []*Term // blocks whose contents a loop may have rewritten (applied after the invariant is assumed)
-	path    []int  // block indices visited in the top frame (for naming / debugging)
+	path            []int   // block indices visited in the top frame (for naming / debugging)
 	// known facts to dedupe no-panic obligations: term strings known non-nil
-	nonnil map[string]bool
-	pcSet  map[string]bool
-	private map[string]*Term // blocks allocated here and not yet escaped
-	local   map[string]bool  // every block allocated by this invocation
-	clean   map[string]bool  // lock key -> nothing the owner's invariant can read was written since acquisition
-	qtag   map[string]string
+	nonnil    map[string]bool
+	pcSet     map[string]bool
+	private   map[string]*Term // blocks allocated here and not yet escaped
+	glocals   map[string]Value // ghost locals of the function under verification (values, not memory)
+	frozen    map[string]*Term // captured variables that no code assigns after their initialisation: they keep their contents across every havoc (never removed)
+	local     map[string]bool  // every block allocated by this invocation
+	clean     map[string]bool  // lock key -> nothing the owner's invariant can read was written since acquisition
+	qtag      map[string]string
 	loadNames map[string]*Term
-	epoch  int // generation of lazily named memory / map arrays (bumped by havocAll)
+	epoch     int // generation of lazily named memory / map arrays (bumped by havocAll)
 }
 
 func (s *State) clone() *State {
@@ -110,6 +114,13 @@ func (s *State) clone() *State {
 	ns.private = make(map[string]*Term, len(s.private))
 	for k, v := range s.private {
 		ns.private[k] = v
+	}
+	ns.frozen = s.frozen // immutable after entry
+	if s.glocals != nil {
+		ns.glocals = make(map[string]Value, len(s.glocals))
+		for k, v := range s.glocals {
+			ns.glocals[k] = v
+		}
 	}
 	ns.qtag = make(map[string]string, len(s.qtag))
 	for k, v := range s.qtag {
@@ -154,6 +165,12 @@ func (s *State) clone() *State {
 // snapshot for old(): memory and maps only (frames not needed except entryParams).
 func (s *State) snapshot() *State {
 	ns := &State{e: s.e, next: s.next, epoch: s.epoch}
+	if s.glocals != nil {
+		ns.glocals = make(map[string]Value, len(s.glocals))
+		for k, v := range s.glocals {
+			ns.glocals[k] = v
+		}
+	}
 	ns.mem = map[Kind]*Term{}
 	for k, v := range s.mem {
 		ns.mem[k] = v
@@ -506,6 +523,11 @@ func (s *State) havocRange(blk, off, n *Term) {
 
 // havocAll replaces all of memory and all maps.
 func (s *State) havocAll() {
+	if os.Getenv("GOVC_DEBUG_HAVOC") != "" {
+		buf := make([]byte, 2048)
+		n := runtime.Stack(buf, false)
+		fmt.Fprintf(os.Stderr, "havocAll:\n%s\n", buf[:n])
+	}
 	s.dirty()
 	// blocks allocated by this invocation whose address never left it keep their contents
 	type keep struct {
@@ -518,8 +540,19 @@ func (s *State) havocAll() {
 		names = append(names, n)
 	}
 	sort.Strings(names)
+	var fnames []string
+	for n := range s.frozen {
+		if _, dup := s.private[n]; !dup {
+			fnames = append(fnames, n)
+		}
+	}
+	sort.Strings(fnames)
+	names = append(names, fnames...)
 	for _, n := range names {
 		b := s.private[n]
+		if b == nil {
+			b = s.frozen[n]
+		}
 		k := keep{blk: b, vals: map[Kind]*Term{}}
 		for _, kd := range allKinds {
 			if m, ok := s.mem[kd]; ok {
@@ -543,6 +576,11 @@ func (s *State) havocAll() {
 	old := s.nonnil
 	s.nonnil = map[string]bool{}
 	for n := range s.private {
+		if old[n] {
+			s.nonnil[n] = true
+		}
+	}
+	for n := range s.frozen {
 		if old[n] {
 			s.nonnil[n] = true
 		}
